@@ -289,6 +289,11 @@ def server_case(rng, stats, length, pid):
             feed(data)
         else:
             feed(b"")
+        if pid in ("C18", "C03") and rng.chance(1, 6):
+            ops.append(f"!sess.decodable s {rng.below(1 << 30)}")
+    if pid in ("C18", "C03"):
+        ops.append(f"!sess.decodable s {rng.below(1 << 30)}")
+        ops.append(f"!sess.decodable s {rng.below(1 << 30)}")
     return ops
 
 
@@ -449,4 +454,9 @@ def client_case(rng, stats, length, pid):
                 feed(b"")
         else:                   # two messages in one call, the second one failing (K2 shape)
             feed(ps.msg(4, 0, (6).to_bytes(2, "big") + (9).to_bytes(4, "big")) + ps.msg(20, 0, cmd_body("onStatus", 0.0, ("z",), [])))
+        if pid in ("C18", "C03") and rng.chance(1, 6):
+            ops.append(f"!sess.decodable c {rng.below(1 << 30)}")
+    if pid in ("C18", "C03"):
+        ops.append(f"!sess.decodable c {rng.below(1 << 30)}")
+        ops.append(f"!sess.decodable c {rng.below(1 << 30)}")
     return ops
